@@ -1,6 +1,7 @@
 import OW.Proofs.Surm
 import OW.Proofs.Simhyd
 import OW.Proofs.GR4JBudget
+import OW.Proofs.GR4JModel
 import OW.Proofs.Sacramento
 import OW.Kernels.Coeff
 /-!
@@ -294,20 +295,222 @@ example : (demoSeriesNoPet.map (·.1)).sum =
   gr4j_closed_balance 350 90 1.7 (by constructor <;> norm_num) _
     (RR.GR4J.init_inv 350 90 1.7 (by constructor <;> norm_num)).1 _ demoSeriesNoPet_ok
 
+/-! ### GR4J with a positive exchange coefficient (x2 > 0, documented range up to 5)
+
+For `x2 > 0` the property's "never create water" is FALSE for GR4J, by design of the published model: the exchange term
+`ech = x2·(R/x3)^3.5` is then an IMPORT of groundwater, added to the routing store and to the direct branch. What holds
+for every x2 is the budget with that import on the right-hand side (`gr4j_budget_exchange`,
+`gr4j_no_water_created_exchange`); for `x2 ≥ 0` and zero PET it closes exactly (`gr4j_closed_balance_exchange`); and
+`gr4j_positive_x2_creates_water` / `gr4j_positive_x2_counterexample` show that the import cannot be dropped. -/
+
+/-- `Σ (f − g) = Σ f − Σ g` over a list -/
+theorem list_sum_map_sub {β : Type} (l : List β) (f g : β → ℝ) :
+    (l.map (fun o => f o - g o)).sum = (l.map f).sum - (l.map g).sum := by
+  induction l with
+  | nil => simp
+  | cons o os ih => simp only [List.map_cons, List.sum_cons, ih]; ring
+
+/-- **Budget with the imported water, any x2.** Cumulative runoff + water held ≤ cumulative rainfall + water held
+initially + Σ 2·max(0, ech_t), where `ech_t = x2·(R_t/x3)^3.5` is the exchange term of day t (ghost output `ech`; it
+enters the routing store and the direct-flow branch, hence the factor 2). For `x2 ≤ 0` the last sum is zero and this is
+`gr4j_budget`. -/
+theorem gr4j_budget_exchange (x1 x2 x3 x4 : ℝ) (hp : RR.GR4J.ParamsOk x1 x3 x4) (s : GR4J.State ℝ)
+    (hs : RR.GR4J.Inv x1 x3 x4 s) (xs : List (ℝ × ℝ)) (hx : ∀ x ∈ xs, 0 ≤ x.1 ∧ 0 ≤ x.2) :
+    ((GR4J.run x1 x2 x3 x4 ⌈x4⌉₊ ⌈2 * x4⌉₊ s xs).2.map (·.runoff)).sum +
+        RR.GR4J.stor (GR4J.run x1 x2 x3 x4 ⌈x4⌉₊ ⌈2 * x4⌉₊ s xs).1 ≤
+      (xs.map (·.1)).sum + RR.GR4J.stor s +
+        ((GR4J.run x1 x2 x3 x4 ⌈x4⌉₊ ⌈2 * x4⌉₊ s xs).2.map (fun o => 2 * max 0 o.ech)).sum := by
+  have h := (RR.scan_budget_le (GR4J.step x1 x2 x3 (GR4J.uh1 x4 ⌈x4⌉₊) (GR4J.uh2 x4 ⌈2 * x4⌉₊))
+    (RR.GR4J.Inv x1 x3 x4) (fun x => 0 ≤ x.1 ∧ 0 ≤ x.2) RR.GR4J.stor (fun x => x.1)
+    (fun o => o.runoff - 2 * max 0 o.ech) RR.GR4J.OutOk
+    (fun s x hs hx => RR.GR4J.step_budget_exchange x1 x2 x3 x4 hp s x hs hx) xs s hs hx).2.1
+  rw [list_sum_map_sub] at h
+  unfold GR4J.run
+  linarith
+
+/-- **No water created beyond the import**, every prefix, any x2:
+Σ_{t<n} runoff ≤ Σ_{t<n} rain + initial storage + Σ_{t<n} 2·max(0, ech_t). -/
+theorem gr4j_no_water_created_exchange (x1 x2 x3 x4 : ℝ) (hp : RR.GR4J.ParamsOk x1 x3 x4)
+    (s : GR4J.State ℝ) (hs : RR.GR4J.Inv x1 x3 x4 s) (xs : List (ℝ × ℝ)) (hx : ∀ x ∈ xs, 0 ≤ x.1 ∧ 0 ≤ x.2)
+    (n : ℕ) :
+    (((GR4J.run x1 x2 x3 x4 ⌈x4⌉₊ ⌈2 * x4⌉₊ s xs).2.take n).map (·.runoff)).sum ≤
+      ((xs.take n).map (·.1)).sum + RR.GR4J.stor s +
+        (((GR4J.run x1 x2 x3 x4 ⌈x4⌉₊ ⌈2 * x4⌉₊ s xs).2.take n).map (fun o => 2 * max 0 o.ech)).sum := by
+  have h := RR.prefix_budget (GR4J.step x1 x2 x3 (GR4J.uh1 x4 ⌈x4⌉₊) (GR4J.uh2 x4 ⌈2 * x4⌉₊))
+    (RR.GR4J.Inv x1 x3 x4) (fun x => 0 ≤ x.1 ∧ 0 ≤ x.2) RR.GR4J.stor (fun x => x.1)
+    (fun o => o.runoff - 2 * max 0 o.ech) RR.GR4J.OutOk
+    (fun s x hs hx => RR.GR4J.step_budget_exchange x1 x2 x3 x4 hp s x hs hx)
+    (fun s hs => RR.GR4J.stor_nonneg x1 x3 x4 s hs) xs s hs hx n
+  rw [list_sum_map_sub] at h
+  unfold GR4J.run
+  linarith
+
+/-- **Closed balance of a gaining catchment** (`x2 ≥ 0`, zero PET): rainfall plus the imported groundwater `Σ 2·ech_t`
+equals runoff plus the change in storage, exactly. -/
+theorem gr4j_closed_balance_exchange (x1 x2 x3 x4 : ℝ) (hp : RR.GR4J.ParamsOk x1 x3 x4) (hx2 : 0 ≤ x2)
+    (s : GR4J.State ℝ) (hs : RR.GR4J.Inv x1 x3 x4 s) (xs : List (ℝ × ℝ)) (hx : ∀ x ∈ xs, 0 ≤ x.1 ∧ x.2 = 0) :
+    (xs.map (·.1)).sum + ((GR4J.run x1 x2 x3 x4 ⌈x4⌉₊ ⌈2 * x4⌉₊ s xs).2.map (fun o => 2 * o.ech)).sum =
+      ((GR4J.run x1 x2 x3 x4 ⌈x4⌉₊ ⌈2 * x4⌉₊ s xs).2.map (·.runoff)).sum +
+        (RR.GR4J.stor (GR4J.run x1 x2 x3 x4 ⌈x4⌉₊ ⌈2 * x4⌉₊ s xs).1 - RR.GR4J.stor s) := by
+  have h := (RR.scan_budget_eq (GR4J.step x1 x2 x3 (GR4J.uh1 x4 ⌈x4⌉₊) (GR4J.uh2 x4 ⌈2 * x4⌉₊))
+    (RR.GR4J.Inv x1 x3 x4) (fun x => 0 ≤ x.1 ∧ x.2 = 0) RR.GR4J.stor (fun x => x.1)
+    (fun o => o.runoff - 2 * o.ech)
+    (fun s x hs hx => RR.GR4J.step_closed_exchange x1 x2 x3 x4 hp hx2 s x hs hx) xs s hs hx).2
+  rw [list_sum_map_sub] at h
+  unfold GR4J.run
+  linarith
+
+/-- **A positive x2 creates water (every parameter set, every wet routing store).** `x2 > 0`, any state within the
+invariant whose routing store is not empty, one day without rain and without PET: runoff + water held afterwards is
+STRICTLY larger than the water held before — by exactly `2·x2·(R/x3)^3.5`. So the budget invariant of `gr4j_budget`
+fails at every such step: the hypothesis `x2 ≤ 0` there cannot be dropped. -/
+theorem gr4j_positive_x2_creates_water (x1 x2 x3 x4 : ℝ) (hp : RR.GR4J.ParamsOk x1 x3 x4) (hx2 : 0 < x2)
+    (s : GR4J.State ℝ) (hs : RR.GR4J.Inv x1 x3 x4 s) (hR : 0 < s.R) :
+    (GR4J.step x1 x2 x3 (GR4J.uh1 x4 ⌈x4⌉₊) (GR4J.uh2 x4 ⌈2 * x4⌉₊) s (0, 0)).2.runoff +
+      RR.GR4J.stor (GR4J.step x1 x2 x3 (GR4J.uh1 x4 ⌈x4⌉₊) (GR4J.uh2 x4 ⌈2 * x4⌉₊) s (0, 0)).1 =
+        RR.GR4J.stor s + 2 * (x2 * (s.R / x3) ^ (3.5 : ℝ)) ∧
+    RR.GR4J.stor s <
+      (GR4J.step x1 x2 x3 (GR4J.uh1 x4 ⌈x4⌉₊) (GR4J.uh2 x4 ⌈2 * x4⌉₊) s (0, 0)).2.runoff +
+      RR.GR4J.stor (GR4J.step x1 x2 x3 (GR4J.uh1 x4 ⌈x4⌉₊) (GR4J.uh2 x4 ⌈2 * x4⌉₊) s (0, 0)).1 := by
+  have h := (RR.GR4J.step_closed_exchange x1 x2 x3 x4 hp hx2.le s (0, 0) hs ⟨le_refl _, rfl⟩).2
+  have he : (GR4J.step x1 x2 x3 (GR4J.uh1 x4 ⌈x4⌉₊) (GR4J.uh2 x4 ⌈2 * x4⌉₊) s (0, 0)).2.ech =
+      x2 * (s.R / x3) ^ (3.5 : ℝ) := rfl
+  have hpos : 0 < x2 * (s.R / x3) ^ (3.5 : ℝ) :=
+    mul_pos hx2 (Real.rpow_pos_of_pos (div_pos hR hp.x3pos) _)
+  rw [he] at h
+  simp only at h
+  constructor <;> linarith
+
+/-- the exchange term reaches the outlet the same day through the direct branch: on every day of every run
+`runoff_t ≥ ech_t = x2·(R_t/x3)^3.5` (any x2) -/
+theorem gr4j_runoff_ge_exchange (x1 x2 x3 x4 : ℝ) (hp : RR.GR4J.ParamsOk x1 x3 x4) (s : GR4J.State ℝ)
+    (hs : RR.GR4J.Inv x1 x3 x4 s) (xs : List (ℝ × ℝ)) (hx : ∀ x ∈ xs, 0 ≤ x.1 ∧ 0 ≤ x.2) :
+    ∀ o ∈ (GR4J.run x1 x2 x3 x4 ⌈x4⌉₊ ⌈2 * x4⌉₊ s xs).2, o.ech ≤ o.runoff :=
+  (RR.scan_budget_le (GR4J.step x1 x2 x3 (GR4J.uh1 x4 ⌈x4⌉₊) (GR4J.uh2 x4 ⌈2 * x4⌉₊))
+    (RR.GR4J.Inv x1 x3 x4) (fun x => 0 ≤ x.1 ∧ 0 ≤ x.2) (fun _ => 0) (fun _ => 0) (fun _ => 0)
+    (fun o => o.ech ≤ o.runoff)
+    (fun s x hs hx => ⟨(RR.GR4J.step_inv x1 x2 x3 x4 hp s x hs hx).1, le_refl _,
+      RR.GR4J.step_runoff_ge_ech x1 x2 x3 x4 hp s x hs hx⟩) xs s hs hx).2.2
+
+/-- **Counter-example to "Σ runoff ≤ Σ rain + initial storage" for x2 > 0** (x1 = 1, x2 = 5, x3 = 1, x4 = 1: all
+inside the documented ranges; a state within the invariant: routing store full, everything else empty, holding 1 mm;
+one day without rain or PET): the runoff of that day is at least 5 mm = 0 mm of rain + 1 mm held + 4 mm created.
+(The exchange imports 5 mm into the direct branch, which reaches the outlet the same day, and 5 mm into the routing
+store.) From the model's own EMPTY initial state the same happens as soon as rain has filled the routing store; the
+general statement is `gr4j_positive_x2_creates_water`. -/
+theorem gr4j_positive_x2_counterexample :
+    RR.GR4J.ParamsOk 1 1 1 ∧ RR.GR4J.Inv 1 1 1 ⟨0, 1, [0, 0], [0]⟩ ∧
+    (([(0, 0)] : List (ℝ × ℝ)).map (·.1)).sum + RR.GR4J.stor (⟨0, 1, [0, 0], [0]⟩ : GR4J.State ℝ) + 4 ≤
+      ((GR4J.run 1 5 1 1 ⌈(1 : ℝ)⌉₊ ⌈2 * (1 : ℝ)⌉₊ ⟨0, 1, [0, 0], [0]⟩ [(0, 0)]).2.map (·.runoff)).sum := by
+  have hp : RR.GR4J.ParamsOk 1 1 1 := by constructor <;> norm_num
+  have hc1 : ⌈(1 : ℝ)⌉₊ = 1 := by simp
+  have hc2 : ⌈2 * (1 : ℝ)⌉₊ = 2 := by
+    rw [mul_one]; exact_mod_cast Nat.ceil_natCast (R := ℝ) 2
+  have hinv : RR.GR4J.Inv 1 1 1 ⟨0, 1, [0, 0], [0]⟩ := by
+    refine ⟨le_refl _, by norm_num, by norm_num, le_refl _, ?_, ?_, ?_, ?_⟩
+    · intro q hq; simp at hq; rw [hq]
+    · intro q hq; simp at hq; rw [hq]
+    · show ([0] : List ℝ).length = ⌈(1 : ℝ)⌉₊; rw [hc1]; rfl
+    · show ([0, 0] : List ℝ).length = ⌈2 * (1 : ℝ)⌉₊; rw [hc2]; rfl
+  have hstor : RR.GR4J.stor (⟨0, 1, [0, 0], [0]⟩ : GR4J.State ℝ) = 1 := by
+    simp [RR.GR4J.stor]
+  refine ⟨hp, hinv, ?_⟩
+  have hge := RR.GR4J.step_runoff_ge_ech 1 5 1 1 hp ⟨0, 1, [0, 0], [0]⟩ (0, 0) hinv ⟨le_refl _, le_refl _⟩
+  have he : (GR4J.step (1 : ℝ) 5 1 (GR4J.uh1 1 ⌈(1 : ℝ)⌉₊) (GR4J.uh2 1 ⌈2 * (1 : ℝ)⌉₊) ⟨0, 1, [0, 0], [0]⟩ (0, 0)).2.ech =
+      5 := by
+    show (5 : ℝ) * ((1 : ℝ) / 1) ^ (3.5 : ℝ) = 5
+    rw [div_one, Real.one_rpow, mul_one]
+  have hrun : (GR4J.run (1 : ℝ) 5 1 1 ⌈(1 : ℝ)⌉₊ ⌈2 * (1 : ℝ)⌉₊ ⟨0, 1, [0, 0], [0]⟩ [(0, 0)]).2 =
+      [(GR4J.step (1 : ℝ) 5 1 (GR4J.uh1 1 ⌈(1 : ℝ)⌉₊) (GR4J.uh2 1 ⌈2 * (1 : ℝ)⌉₊) ⟨0, 1, [0, 0], [0]⟩ (0, 0)).2] := rfl
+  rw [hrun, hstor]
+  simp only [List.map_cons, List.map_nil, List.sum_cons, List.sum_nil, add_zero]
+  rw [he] at hge
+  linarith
+
+/-- non-vacuity of the exchange budget: a gaining catchment (x2 = +2) from the model's own initial state -/
+example : (((GR4J.run 350 2 90 1.7 ⌈(1.7 : ℝ)⌉₊ ⌈2 * (1.7 : ℝ)⌉₊ (GR4J.initState (1.7 : ℝ)).1 demoSeries).2.take 2).map
+      (·.runoff)).sum ≤ ((demoSeries.take 2).map (·.1)).sum + RR.GR4J.stor (GR4J.initState (1.7 : ℝ)).1 +
+      (((GR4J.run 350 2 90 1.7 ⌈(1.7 : ℝ)⌉₊ ⌈2 * (1.7 : ℝ)⌉₊ (GR4J.initState (1.7 : ℝ)).1 demoSeries).2.take 2).map
+        (fun o => 2 * max 0 o.ech)).sum :=
+  gr4j_no_water_created_exchange 350 2 90 1.7 (by constructor <;> norm_num) _
+    (RR.GR4J.init_inv 350 90 1.7 (by constructor <;> norm_num)).1 _ demoSeries_nonneg 2
+
+/-! ### the runs of these theorems are the runs of the catalogued models (`KModel.run`) -/
+
+/-- **GR4J: `model.init` then `model.run` is `GR4J.run … ⌈x4⌉₊ ⌈2·x4⌉₊ initState`.** The theorems above fix the
+unit-hydrograph lengths to ⌈x4⌉ and ⌈2·x4⌉, while `GR4J.model.run` takes n1, n2 from cells 2 and 3 of the state row
+(`int(states[2])`, `int(states[3])`): for every x4 > 0 the row written by `InitialiseStates` carries exactly these
+lengths, the adapter does not panic, and the result is the output series / packed final state of that run
+(`packedResult`: outputs = [runoff series], states = `pack` of the final state with the same n1, n2). -/
+theorem gr4j_model_run_init (x1 x2 x3 x4 : ℝ) (hx4 : 0 < x4) (rain pet : List ℝ) :
+    ((GR4J.model (α := ℝ)).init [x1, x2, x3, x4] >>= fun row =>
+        (GR4J.model (α := ℝ)).run [x1, x2, x3, x4] [rain, pet] row) =
+      .ok { outputs := [(GR4J.run x1 x2 x3 x4 ⌈x4⌉₊ ⌈2 * x4⌉₊ (GR4J.initState x4).1 (rain.zip pet)).2.map (·.runoff)],
+            states := GR4J.pack (GR4J.run x1 x2 x3 x4 ⌈x4⌉₊ ⌈2 * x4⌉₊ (GR4J.initState x4).1 (rain.zip pet)).1
+              ⌈x4⌉₊ ⌈2 * x4⌉₊,
+            tags := GR4J.dedup ((GR4J.run x1 x2 x3 x4 ⌈x4⌉₊ ⌈2 * x4⌉₊ (GR4J.initState x4).1 (rain.zip pet)).2.flatMap
+                (·.tags)) ++ ["n1=" ++ toString ⌈x4⌉₊, "n2=" ++ toString ⌈2 * x4⌉₊] } :=
+  RR.GR4J.model_run_init x1 x2 x3 x4 hx4 rain pet
+
+/-- … and the state row a call returns is accepted by the next call with the same lengths (hot start): a chain of
+`model.run` calls is a chain of `GR4J.run … ⌈x4⌉₊ ⌈2·x4⌉₊`, to which the invariant / budget theorems apply call by call -/
+theorem gr4j_model_run_chain (x1 x2 x3 x4 : ℝ) (hx4 : 0 < x4) (st : GR4J.State ℝ) (hst : RR.GR4J.Inv x1 x3 x4 st)
+    (rain pet : List ℝ) :
+    (GR4J.model (α := ℝ)).run [x1, x2, x3, x4] [rain, pet] (GR4J.pack st ⌈x4⌉₊ ⌈2 * x4⌉₊) =
+      .ok (RR.GR4J.packedResult x1 x2 x3 x4 ⌈x4⌉₊ ⌈2 * x4⌉₊ st rain pet) :=
+  RR.GR4J.model_run_pack x1 x2 x3 x4 _ _ (Nat.ceil_pos.mpr hx4) (Nat.ceil_pos.mpr (by linarith)) st
+    hst.2.2.2.2.2.2.2 hst.2.2.2.2.2.2.1 rain pet
+
+/-- RunoffCoefficient: `model.run` on the parameter column `[coeff]`, the rainfall series and the empty state row is
+`Coeff.run coeff rain` (one output, no state) -/
+theorem coeff_model_run (c : ℝ) (rain : List ℝ) :
+    (Coeff.model (α := ℝ)).init [c] = .ok [] ∧
+    (Coeff.model (α := ℝ)).run [c] [rain] [] = .ok { outputs := [Coeff.run c rain], states := [] } := ⟨rfl, rfl⟩
+
+/-- SURM: `model.init` is the empty state row `[0, 0, 0]` and `model.run` on a parameter column, the two input series
+and a state row is `Surm.run` on the zipped inputs (outputs runoff, quickflow, baseflow, store; final states) -/
+theorem surm_model_run (p : Surm.Params ℝ) (rain pet : List ℝ) (s gw tot : ℝ) :
+    (Surm.model (α := ℝ)).init [p.bfac, p.coeff, p.dseep, p.fcFrac, p.fimp, p.rfac, p.smax, p.sq, p.thres] =
+      .ok [0, 0, 0] ∧
+    (Surm.model (α := ℝ)).run [p.bfac, p.coeff, p.dseep, p.fcFrac, p.fimp, p.rfac, p.smax, p.sq, p.thres] [rain, pet]
+        [s, gw, tot] =
+      .ok { outputs := [(Surm.run p ⟨s, gw, tot⟩ (rain.zip pet)).2.map (·.runoff),
+                        (Surm.run p ⟨s, gw, tot⟩ (rain.zip pet)).2.map (·.quickflow),
+                        (Surm.run p ⟨s, gw, tot⟩ (rain.zip pet)).2.map (·.baseflow),
+                        (Surm.run p ⟨s, gw, tot⟩ (rain.zip pet)).2.map (·.store)],
+            states := [(Surm.run p ⟨s, gw, tot⟩ (rain.zip pet)).1.sms, (Surm.run p ⟨s, gw, tot⟩ (rain.zip pet)).1.gw,
+                       (Surm.run p ⟨s, gw, tot⟩ (rain.zip pet)).1.total],
+            tags := Surm.dedup ((Surm.run p ⟨s, gw, tot⟩ (rain.zip pet)).2.flatMap (·.tags)) } := ⟨rfl, rfl⟩
+
+/-- SIMHYD: the same bridge (`model.init` = `[0, 0, 0]`; `model.run` = `Simhyd.run` on the zipped inputs) -/
+theorem simhyd_model_run (p : Simhyd.Params ℝ) (rain pet : List ℝ) (s gw tot : ℝ) :
+    (Simhyd.model (α := ℝ)).init [p.baseflowCoefficient, p.imperviousThreshold, p.infiltrationCoefficient,
+        p.infiltrationShape, p.interflowCoefficient, p.perviousFraction, p.risc, p.rechargeCoefficient, p.smsc] =
+      .ok [0, 0, 0] ∧
+    (Simhyd.model (α := ℝ)).run [p.baseflowCoefficient, p.imperviousThreshold, p.infiltrationCoefficient,
+        p.infiltrationShape, p.interflowCoefficient, p.perviousFraction, p.risc, p.rechargeCoefficient, p.smsc]
+        [rain, pet] [s, gw, tot] =
+      .ok { outputs := [(Simhyd.run p ⟨s, gw, tot⟩ (rain.zip pet)).2.map (·.runoff),
+                        (Simhyd.run p ⟨s, gw, tot⟩ (rain.zip pet)).2.map (·.quickflow),
+                        (Simhyd.run p ⟨s, gw, tot⟩ (rain.zip pet)).2.map (·.baseflow),
+                        (Simhyd.run p ⟨s, gw, tot⟩ (rain.zip pet)).2.map (·.store)],
+            states := [(Simhyd.run p ⟨s, gw, tot⟩ (rain.zip pet)).1.sms,
+                       (Simhyd.run p ⟨s, gw, tot⟩ (rain.zip pet)).1.gw,
+                       (Simhyd.run p ⟨s, gw, tot⟩ (rain.zip pet)).1.total],
+            tags := Simhyd.dedup ((Simhyd.run p ⟨s, gw, tot⟩ (rain.zip pet)).2.flatMap (·.tags)) } := ⟨rfl, rfl⟩
+
 /-! ## Sacramento
 
 Model of the code as repaired by fixes/sacramento-adimp-ratio.diff (the ADIMP saturation ratio is clamped at 0;
-without the clamp the real code produced NaN and 10²³ mm of runoff — see the evidence).
-Proved: components, the channel stage (runoff, baseflow, channel evaporation non-negative), the normalised unit
-hydrograph. NOT proved (named gap, `sacramento_bounds_partial`): the store bounds and the water budget, which need
-an invariant through the drainage-and-percolation loop (`incBody`: 15 coupled updates repeated `ninc` times, twice
-per day); they are covered by the oracle on the implementation only. Full statements:
-
-  theorem sacramento_invariant : ParamsOk p → Inv p s → (∀ x ∈ xs, 0 ≤ x.1 ∧ 0 ≤ x.2) →
-      Inv p (run p s xs).1 ∧ ∀ o ∈ (run p s xs).2, 0 ≤ o.actualET ∧ 0 ≤ o.imperviousRunoff ∧ 0 ≤ o.surfaceRunoff
-    where Inv: 0 ≤ uztwc ≤ uztwm, 0 ≤ uzfwc ≤ uzfwm, 0 ≤ lztwc ≤ lztwm, 0 ≤ alzfpc ≤ alzfpm, 0 ≤ alzfsc ≤ alzfsm, qq ≥ 0
-  theorem sacramento_no_water_created : … → ∀ n,
-      Σ_{t<n} (runoff + actualET) ≤ Σ_{t<n} rain + (1−pctim−adimp)(uztwc+uzfwc+lztwc+alzfpc+alzfsc)₀ + adimp·adimc₀
+without the clamp the real code produced NaN and 10²³ mm of runoff — see the evidence) and the fracp clamp.
+Here: the statements that need NO hypothesis on the stores — components, the channel stage (runoff, baseflow, channel
+evaporation non-negative, `sacramento_channel_nonneg`), the normalised unit hydrograph.
+The state invariant through the drainage-and-percolation loop, non-negativity of every output and the water budget for
+every prefix of every run are proved in OW/Props/C10Sacramento.lean (`sacramento_invariant`, `sacramento_store_bounds`,
+`sacramento_outputs_nonneg`, `sacramento_adimc_capacity`, `sacramento_budget`, `sacramento_no_water_created`,
+`sacramento_oracle_end_budget`, `sacramento_oracle_prefix_budget`, `sacramento_runoff_le_rain`) under `RR.Sac.ParamsOk`,
+`InOk` / `InOkPet` and, for a non-initial state row, `RowInv`; the hypotheses that cannot be dropped carry proved
+counter-examples there.
 -/
 
 /-- runoff = surfaceRunoff + baseflow on every step of every run (any parameters, inputs, state) -/
@@ -323,11 +526,11 @@ theorem sacramento_components_sum (p : Sacramento.Params ℝ) (s : Sacramento.St
     · exact ⟨RR.Sacramento.step_components p _ s x, rfl⟩
     · exact ih _ o ho
 
-/-- **Partial (channel stage only).** PET ≥ 0 and sarva ≥ 0: on every step of every run total runoff ≥ 0,
-baseflow ≥ 0 and the channel evaporation e4 ≥ 0, whatever the stores did. Missing for the full
-`sacramento_invariant`: surfaceRunoff ≥ 0 (needs the unit-hydrograph buffer ≥ 0), e1, e2, e3, e5 ≥ 0, imperviousRunoff ≥ 0
-and the store bounds, all of which depend on the drainage-and-percolation loop invariant. -/
-theorem sacramento_bounds_partial (p : Sacramento.Params ℝ) (hsarva : 0 ≤ p.sarva) (s : Sacramento.State ℝ)
+/-- **Channel stage, any state.** PET ≥ 0 and sarva ≥ 0 only (no hypothesis on the other parameters or on the stores):
+on every step of every run total runoff ≥ 0, baseflow ≥ 0 and the channel evaporation e4 ≥ 0, whatever the stores did.
+(Formerly `sacramento_bounds_partial`; the rest of the invariant — surfaceRunoff, imperviousRunoff, e1, e2, e3, e5 ≥ 0 and
+the store bounds — is `OW.Props.C10Sacramento.sacramento_invariant` / `sacramento_outputs_nonneg`, under `ParamsOk`.) -/
+theorem sacramento_channel_nonneg (p : Sacramento.Params ℝ) (hsarva : 0 ≤ p.sarva) (s : Sacramento.State ℝ)
     (xs : List (ℝ × ℝ)) (hx : ∀ x ∈ xs, 0 ≤ x.2) :
     ∀ o ∈ (Sacramento.run p s xs).2, 0 ≤ o.runoff ∧ 0 ≤ o.baseflow ∧ 0 ≤ o.e4 := by
   induction xs generalizing s with
